@@ -455,3 +455,106 @@ def rmse_reaches_mse(chk, prog):
     chk.instance(R, 'RMSE does not reach MSE (calls %s)' % other, 'refuted')
     chk.violation(Finding('G.rmse', rel(f.file), 'RMSE', 'callee', f.where,
                           'RMSE neither calls MSE nor accumulates squared errors itself (it calls %s)' % other))
+
+
+# ---------------------------------------------------------------------------------------
+# (c) pivot guard (C12)
+
+def pivot_guard(chk, prog, funcs):
+    R = chk.rule('G.pivot', 'a division by a diagonal element W[e][e] of a working matrix is dominated by a test of that element, or '
+                 'is preceded inside the same pivot iteration by a store into row e of W (row exchange)')
+    for unit, names in funcs.items():
+        for name in names:
+            f = prog.funcs.get(name)
+            if f is None:
+                chk.broke('pivot guard: %s not found' % name)
+                continue
+            pm = flow.parent_map(f.body)
+            # locals that copy a diagonal element:  a = W[e][e]
+            diag_alias = {}
+            for n in walk(f.body):
+                if is_assign(n) and n.get('opcode') == '=':
+                    l, r = strip(kids(n)[0]), strip(kids(n)[1])
+                    d = diag_of(r)
+                    if l.get('kind') == 'DeclRefExpr' and d:
+                        diag_alias[l['referencedDecl']['id']] = (d, n)
+            ndiv = 0
+            for n in walk(f.body):
+                isdiv = (n.get('kind') == 'BinaryOperator' and n.get('opcode') == '/') or \
+                        (n.get('kind') == 'CompoundAssignOperator' and n.get('opcode') == '/=')
+                if not isdiv or not fe.is_float_type(strip(kids(n)[1], casts=False)):
+                    continue
+                dv = strip(kids(n)[1])
+                d = diag_of(dv)
+                at = n
+                if d is None and dv.get('kind') == 'DeclRefExpr' and dv['referencedDecl']['id'] in diag_alias:
+                    d, at = diag_alias[dv['referencedDecl']['id']]
+                if d is None:
+                    continue
+                wkey, ekey, evar = d
+                # only elimination ratios  W[x][e] / W[e][e]  (x != e): scaling a row by its own pivot afterwards is not
+                # a pivoting question
+                num = strip(kids(n)[0])
+                nk = exprs.text_key(num)
+                if not (num.get('kind') == 'ArraySubscriptExpr' and nk.startswith(wkey + '->data[') and nk.endswith('[%s]' % ekey)
+                        and not nk.startswith('%s->data[%s]' % (wkey, ekey))):
+                    continue
+                ndiv += 1
+                desc = '%s %s: %s' % (f.unit.where(n), name, f.unit.text(n)[:70])
+                # (1) tested: an enclosing / preceding condition mentions the same cell
+                cellkey = '%s->data[%s][%s]' % (wkey, ekey, ekey)
+                tested = False
+                child = n
+                for anc in flow.ancestors(pm, n):
+                    if anc.get('kind') == 'IfStmt':
+                        c, t, e = flow.if_parts(anc)
+                        if any(cell_key(x) == cellkey for x in walk(c) if x.get('kind') == 'ArraySubscriptExpr'):
+                            tested = True
+                    child = anc
+                # (2) replaced: inside the loop over the pivot variable, before `at`, a store into row e of W
+                replaced = False
+                ploop = None
+                for lp in flow.enclosing_loops(pm, at):
+                    ind = flow.induction(lp)
+                    if ind and evar and ind['var'].split('#')[0] == evar:
+                        ploop = lp
+                        break
+                if ploop is not None:
+                    off_at = (fe.begin(at) or {}).get('offset', 0)
+                    for x in walk(ploop):
+                        if is_assign(x) and (fe.begin(x) or {}).get('offset', 0) < off_at:
+                            l = strip(kids(x)[0])
+                            if l.get('kind') == 'ArraySubscriptExpr':
+                                k0 = exprs.text_key(l)
+                                if k0.startswith('%s->data[%s]' % (wkey, ekey)):
+                                    replaced = True
+                if tested or replaced:
+                    chk.instance(R, desc + (': pivot tested' if tested else ': pivot row may be exchanged before the division'))
+                else:
+                    chk.instance(R, desc + ': divides by whatever is on the diagonal', 'refuted')
+                    chk.violation(Finding('G.pivot', rel(f.file), name, 'div:' + cellkey, f.unit.where(n),
+                                          '`%s` divides by the diagonal element %s which is neither tested nor possibly replaced by a row '
+                                          'exchange in this pivot iteration: a zero leading entry of a non-singular matrix gives NaN'
+                                          % (f.unit.text(n)[:70], cellkey)))
+            if ndiv == 0:
+                chk.broke('pivot guard: %s has no division by a diagonal element' % name)
+
+
+def diag_of(e):
+    """W->data[x][x]  ->  (W key, x key, x variable name or None)"""
+    e = strip(e)
+    if e.get('kind') != 'ArraySubscriptExpr':
+        return None
+    b, j = kids(e)
+    b = strip(b)
+    if b.get('kind') != 'ArraySubscriptExpr':
+        return None
+    bb, i = kids(b)
+    bb = strip(bb)
+    if not (bb.get('kind') == 'MemberExpr' and bb.get('name') == 'data'):
+        return None
+    ki, kj = exprs.text_key(i), exprs.text_key(j)
+    if ki != kj:
+        return None
+    iv = strip(i)
+    return exprs.text_key(kids(bb)[0]), ki, (iv['referencedDecl']['name'] if iv.get('kind') == 'DeclRefExpr' else None)
